@@ -237,3 +237,59 @@ def exc_sig(err: BaseException) -> str:
         if "/aiomysensors/" in frame.filename:
             inner = f"{frame.filename.split('/aiomysensors/')[-1]}:{frame.name}"
     return f"{type(err).__name__}@{inner or 'outside-package'}"
+
+
+class MemTransport(asyncio.Transport):
+    """Minimal in-memory asyncio transport: lets the harness use REAL StreamReader/StreamWriter objects."""
+
+    def __init__(self) -> None:
+        super().__init__()
+        self.data = bytearray()
+        self.closing = False
+        self.close_exc: BaseException | None = None
+        self.lost_exc: BaseException | None = None
+        self.protocol: Any = None
+        self.closed_count = 0
+
+    def write(self, data) -> None:
+        if not self.closing:
+            self.data += bytes(data)
+
+    def writelines(self, lines) -> None:
+        for line in lines:
+            self.write(line)
+
+    def is_closing(self) -> bool:
+        return self.closing
+
+    def can_write_eof(self) -> bool:
+        return False
+
+    def close(self) -> None:
+        self.closed_count += 1
+        if self.close_exc is not None:
+            raise self.close_exc
+        if not self.closing:
+            self.closing = True
+            if self.protocol is not None:
+                asyncio.get_running_loop().call_soon(self.protocol.connection_lost, self.lost_exc)
+
+    def abort(self) -> None:
+        self.close()
+
+    def get_extra_info(self, name, default=None):
+        return default
+
+    def get_write_buffer_size(self) -> int:
+        return 0
+
+
+def mem_stream_pair(limit: int = 65536) -> tuple[asyncio.StreamReader, asyncio.StreamWriter, MemTransport]:
+    """A real (reader, writer) pair over an in-memory transport; feed the reader by hand."""
+    loop = asyncio.get_running_loop()
+    reader = asyncio.StreamReader(limit=limit, loop=loop)
+    protocol = asyncio.StreamReaderProtocol(reader, loop=loop)
+    mem = MemTransport()
+    mem.protocol = protocol
+    protocol.connection_made(mem)
+    return reader, asyncio.StreamWriter(mem, protocol, reader, loop), mem
